@@ -93,6 +93,25 @@ CLAIMED = {
         "parse_units' derived-symbol tables (tied by correspondence, exhaustive on the symbol tables, sampled on triples); "
         "binary64 rounding bounded by the property's own 1e-12; the Python harness.",
         "DESIGN.md section 6 / C06"),
+    "C09": (
+        "Coq proof by induction over the steps of the sampling/completion state machine (characterisation of the recorded steps per policy, strict/never-decreasing times, fixed-step count, sticky completion) + call-sequence correspondence on all engines",
+        "Theorems (Props/C09.v, closed under the global context; any strictly increasing step-time sequence T with T 0 = 0, so fixed-step "
+        "and event-driven engines alike; any number of steps performed before t_max is passed): per-iteration sampling records every step "
+        "incl. t = 0; with sorted requested times (duplicates, clusters) step k is recorded exactly when it is the first step at or after "
+        "some requested time, one record per such step, the pending requests being those beyond the clock; interval sampling records t = 0 "
+        "and every step at which floor(t/interval) increases; no_sampling records nothing; policy records have strictly increasing times; "
+        "under any sequence of iterate / iterate_n / sample calls times never decrease and a second sample in one iteration records nothing; "
+        "a fixed-step run with N dt <= t_max < (N+1) dt performs exactly N+1 steps, is then complete and further iterations change neither "
+        "clock, step nor records; the export loop writes sample n, species s, cell i at n*S*C + s*C + i. Tied to the code on every run: "
+        "random scripts x three engines x grid/graph x four policies, call sequences mixing iterate, iterate_n, run(0), sample and "
+        "continuing after completion; trajectory.t, len(data), is_complete and get_progress after each call, the engine clock and the "
+        "content of each record are compared with the model (exactly; the Gillespie model is driven by the observed clock increments).",
+        "Trusted: Coq kernel + VM; the hand-written model of Init / SamplingStep / SampleOnTSample / SampleOnInterval / Sample / CheckTMax / "
+        "Iterate / iterate_n (the chemical state is abstracted to its step number; the order of the two tests in SampleOnTSample's loop "
+        "condition is C11's subject) tied by sampled correspondence (400 scripts quick, 8000 thorough); clocks are dyadic so that binary64 "
+        "time arithmetic is exact; time quantities are handed over in s/min/h only where conversion is exact (others discarded, counted); "
+        "iterate_n(0) and wall-clock run slices are C10/C08's subject; record content is compared by the harness (flag passed to Coq).",
+        "DESIGN.md section 6 / C09"),
     "C13": (
         "Coq proof of layout (species-major index), value (SI of density x volume), units and get/set array laws + random-system correspondence",
         "Theorems (Props/C13.v, closed under the global context, any number of species/cells/environments, grid or graph): entry "
